@@ -98,9 +98,10 @@ func preBlock(fw *formatWriter, source []byte, cursor *commonmark.Cursor) (child
 		}
 		return "", true
 	case commonmark.ListKind:
-		if fw.hasWritten && curr.IsTightList() {
-			// Individual list items won't contain a blank line,
-			// so add them beforehand.
+		if fw.hasWritten {
+			// End the previous line or separate the list from the preceding block.
+			// (A loose list needs this too: its first item does not start with a blank line,
+			// and a preceding paragraph in a tight list item has not ended its line.)
 			fw.s("\n")
 		}
 		return "", true
